@@ -82,3 +82,47 @@ def run(ctx: Ctx) -> bool:
               "a non-copyable comptime value that was already used can be used again (its wire is handed out twice), a copyable one is "
               "rejected, a use is not recorded, or a used qubit stays in the leak registry")
     return True
+
+
+def run_setattr(ctx: Ctx) -> bool:
+    """R-C22.2 (semantic form)  a frozen struct object rejects every field store -- `GuppyStructObject.__setattr__`, interpreted.
+
+    The method is interpreted on a struct-object token with two fields for {the name is a field or not} x {frozen or not}:
+    frozen and a field -> GuppyComptimeError and the stored values are untouched;  not frozen and a field -> exactly that field
+    now holds the new value;  not a field -> an error (AttributeError) and nothing is stored, frozen or not.
+    """
+    idx = ctx.idx
+    so = idx.find_class("GuppyStructObject", OBJ)
+    f = so.methods.get("__setattr__")
+    key = f"{f.qualname}#frozen-rejects-field-stores"
+    ps = [a.arg for a in f.node.args.args]
+    bad = []
+    try:
+        for is_field, frozen in itertools.product((True, False), repeat=2):
+            old_a, old_b, new = Tok("old_a", __ident__=1), Tok("old_b", __ident__=1), Tok("new_value", __ident__=1)
+            values = {"a": old_a, "b": old_b}
+            me = Tok("struct_obj", _field_values=values, _frozen=frozen, _ty=Tok("S", __str__="S"), __classes__=so.mro(), __ident__=1)
+            name = "a" if is_field else "zzz"
+            ev = PyEval(idx, OBJ, max_depth=6)
+            try:
+                out = ev.run(f.node.body, {ps[0]: me, ps[1]: name, ps[2]: new})
+                raised = str(out[1]) if out[0] == "raise" else None
+            except Raised as e:
+                raised = e.cls or str(e)
+            case = {"name_is_a_field": is_field, "frozen": frozen}
+            after = me.attrs["_field_values"]
+            if is_field and not frozen:
+                if raised or not isinstance(after, dict) or after.get("a") is not new or after.get("b") is not old_b or set(after) != {"a", "b"}:
+                    bad.append({**case, "outcome": raised or f"fields afterwards: { {k: getattr(v, 'name', v) for k, v in after.items()} }", "should": "store the value in field a only"})
+            else:
+                want_exc = "GuppyComptimeError" if is_field else None
+                unchanged = isinstance(after, dict) and after.get("a") is old_a and after.get("b") is old_b and set(after) == {"a", "b"}
+                if raised is None or (want_exc and want_exc not in str(raised)) or not unchanged:
+                    bad.append({**case, "outcome": raised or "accepted", "fields_unchanged": unchanged,
+                                "should": "raise GuppyComptimeError, fields unchanged" if is_field else "raise (no such attribute), fields unchanged"})
+    except Unsupported as e:
+        ctx.undecided("R-C22.2", key, f.where, str(e))
+        return False
+    ctx.check(not bad, "R-C22.2", key, f.where, {"cases": 4, "counterexamples": bad},
+              "a frozen struct object (owned comptime argument) can have a field overwritten in place, or the rejection is not a GuppyComptimeError")
+    return True
